@@ -235,3 +235,35 @@ Proof.
   - cbn [bind]. destruct (Nat.ltb_spec o len); [lia|]. cbn [bind]. exists o. split; [reflexivity|]. split; [lia|].
     rewrite skipn_all2 by lia. reflexivity.
 Qed.
+
+(* ------------------------------------------------------------------ what a delimiter looks like *)
+Lemma delim_at_content bnd u q : delim_at bnd u q = true ->
+  q + 3 + length bnd <= length u /\ eolc (nthb u q) = true /\
+  firstn (q + 3 + length bnd) u = firstn (S q) u ++ DD ++ bnd /\
+  (starts_dash (skipn (q + 3 + length bnd) u) = true -> q + 3 + length bnd + 2 <= length u).
+Proof.
+  unfold delim_at. intros H.
+  apply andb_prop in H as [H Htail]. apply andb_prop in H as [H Hb]. apply andb_prop in H as [H H2].
+  apply andb_prop in H as [H H1]. apply andb_prop in H as [Hr He].
+  apply Nat.leb_le in Hr. apply N.eqb_eq in H1, H2. apply bytes_eqb_eq in Hb.
+  split; [exact Hr|]. split; [exact He|]. split.
+  - replace (q + 3 + length bnd) with (S q + (2 + length bnd)) by lia. rewrite firstn_add'. f_equal.
+    replace (2 + length bnd) with (2 + length bnd) by lia.
+    assert (Hs : firstn (2 + length bnd) (skipn (S q) u) = sub u (S q) (2 + length bnd)) by reflexivity.
+    rewrite Hs. clear Hs.
+    assert (E1 : sub u (S q) (2 + length bnd) = nthb u (q + 1) :: nthb u (q + 2) :: sub u (q + 3) (length bnd)).
+    { unfold sub. rewrite (skipn_nth_cons u (S q) 0%N) by lia. rewrite (skipn_nth_cons u (S (S q)) 0%N) by lia.
+      cbn [firstn Nat.add]. unfold nthb. replace (q + 1) with (S q) by lia. replace (q + 2) with (S (S q)) by lia.
+      replace (q + 3) with (S (S (S q))) by lia. reflexivity. }
+    rewrite E1, H1, H2, Hb. reflexivity.
+  - intros Hd. unfold starts_dash in Hd.
+    destruct (skipn (q + 3 + length bnd) u) as [|c r] eqn:Es; [discriminate|]. apply N.eqb_eq in Hd. subst c.
+    assert (Hlt : q + 3 + length bnd < length u).
+    { apply (f_equal (@length N)) in Es. rewrite skipn_length in Es. cbn [length] in Es. lia. }
+    assert (Hn : nthb u (q + 3 + length bnd) = DASH).
+    { unfold nthb. rewrite <- (Nat.add_0_r (q + 3 + length bnd)). rewrite <- nth_skipn'. rewrite Es. reflexivity. }
+    rewrite Hn in Htail. destruct (Nat.eqb_spec (q + 3 + length bnd) (length u)); [lia|].
+    cbn [orb] in Htail. change (wsc DASH) with false in Htail. cbn [orb] in Htail.
+    apply andb_prop in Htail as [Ht _]. apply andb_prop in Ht as [Ht _]. apply andb_prop in Ht as [Ht _].
+    apply Nat.ltb_lt in Ht. lia.
+Qed.
